@@ -23,7 +23,7 @@ ASSUMPTIONS = ['first-order composition of small-parameter Helmert sets: chained
                '(second-order terms are < 1e-9 of the tolerances for ITRF sets)',
                'naming convention <from>_to_<to>[_suffix] as stated in geodepy/constants.py']
 EXHAUSTIVE = True
-REQUIRED_COUNTERS = ['constants_checked', 'pairs_checked', 'triples_checked', 'neg_calls', 'add_calls', 'iers_calls']
+REQUIRED_COUNTERS = ['same_label_add_sequences', 'constants_checked', 'pairs_checked', 'triples_checked', 'neg_calls', 'add_calls', 'iers_calls']
 NAME = re.compile(r'^([a-z]+[0-9]+)_to_([a-z]+[0-9]+)(_[a-z]+)?$')
 TOL = {'t': F(15, 100000), 's': F(15, 1000000), 'r': F(15, 1000000)}     # m, ppm, arcsec  (0.15 mm, 0.015 ppb, 0.015 mas)
 
@@ -225,6 +225,25 @@ def run_random(ns, ctx, rnd, n):
                 r = 'exc'
             if r != 'exc':
                 judge_add(ctx, t, ep, r, label)
+            # another set with the same labels and reference epoch moved to the same date right afterwards, and the first
+            # one again: re-referencing must depend on the set's own parameters and rates only
+            if isinstance(label, str):
+                sibs = [k for k, v in cat.items() if k != name and (v.from_datum, v.to_datum, v.ref_epoch) == (t.from_datum, t.to_datum, t.ref_epoch)]
+                others = [(k, cat[k]) for k in sibs[:2]]
+            else:
+                t2 = rand_transformation(ns, rnd)
+                t2.from_datum, t2.to_datum, t2.ref_epoch = t.from_datum, t.to_datum, t.ref_epoch
+                lab2 = {p: getattr(t2, p) for p in hx.P14}
+                lab2['ref_epoch'] = str(t2.ref_epoch)
+                lab2['labels'] = [t2.from_datum, t2.to_datum]
+                others = [(lab2, t2)]
+            for lab2, t2 in others:
+                ctx.count('same_label_add_sequences')
+                for tt, ll in ((t2, lab2), (t, label)):
+                    try:
+                        judge_add(ctx, tt, ep, tt + ep, ll)
+                    except Exception as e:
+                        ctx.violation('__add__:exception', {'op': 'add', 'set': ll, 'epoch': str(ep)}, {'exception': repr(e)})
         args = ['ITRF%d' % rnd.randint(1988, 2020), 'ITRF%d' % rnd.randint(1988, 2020), rand_epoch(rnd)] + \
                [round(rnd.uniform(-100, 100), rnd.choice([1, 2, 3])) for _ in range(14)]
         ctx.bucket('iers', sum(1 for a in args[3:] if a < 0) // 4)
